@@ -2,8 +2,8 @@
 from .. import lib, runner
 
 PROP = "C16"
-THEOREMS = []
-IMPORTS = ["SocVerif.Gpio"]
+THEOREMS = ["Gpio.pin_table", "Gpio.input_delay", "Gpio.output_step", "Gpio.pins_independent", "Gpio.untouched_registers_keep", "Gpio.layout_wf", "Gpio.mux_inside", "Gpio.setclr_codes", "Gpio.mode_written"]
+IMPORTS = ["SocVerif.Props.C16"]
 
 
 def run(rep, tier):
